@@ -13,6 +13,7 @@ from .. import progspace
 from ..common import Check
 
 LEVEL = "exploration"
+RULE = ('cases = (codemod, seed, feature vector) programs run twice; non-trivial when the first run rewrote the file; distinct = distinct (codemod, seed, vector)')
 CLAUSES = ("FileEnd:second-run-reports-a-change", "FileEnd:second-run-modified-a-file")
 
 
